@@ -288,6 +288,39 @@ pub fn handle_threads(parts: &[&str], out: &mut impl Write) {
                         Some(observe_all(&ase2, len))
                     })
                     .flatten();
+                    // a third load queried in the OPPOSITE order first (layers, frames and cels
+                    // descending), then observed normally: the order of earlier calls must not matter
+                    let reversed = crate::guard(|| {
+                        let ase3 = AsepriteFile::read(io::Cursor::new(&bytes)).ok()?;
+                        let nl = ase3.num_layers();
+                        let nf = ase3.num_frames();
+                        let small = (ase3.width() as u64) * (ase3.height() as u64) <= 65536;
+                        for l in (0..nl.min(64)).rev() {
+                            let layer = ase3.layer(l);
+                            let _ = layer.is_visible();
+                            let _ = layer.parent().map(|p| p.id());
+                            let _ = layer.user_data().is_some();
+                        }
+                        for f in (0..nf.min(12)).rev() {
+                            for l in (0..nl.min(24)).rev() {
+                                let cel = ase3.cel(f, l);
+                                let _ = cel.is_empty();
+                                let _ = cel.user_data().is_some();
+                                if small {
+                                    let _ = cel.image();
+                                }
+                                if let Some(tm) = ase3.tilemap(l, f) {
+                                    let _ = tm.tile(tm.width().saturating_sub(1), tm.height().saturating_sub(1)).id();
+                                    let _ = tm.tile(0, 0).id();
+                                }
+                            }
+                            if small {
+                                let _ = ase3.frame(f).image();
+                            }
+                        }
+                        Some(observe_all(&ase3, len))
+                    })
+                    .flatten();
                     match &obs[0] {
                         None => writeln!(out, "observe PANIC").unwrap(),
                         Some(first) => {
@@ -304,6 +337,9 @@ pub fn handle_threads(parts: &[&str], out: &mut impl Write) {
                             }
                             if second.as_ref() != Some(first) {
                                 writeln!(out, "differs second-load").unwrap();
+                            }
+                            if reversed.as_ref() != Some(first) {
+                                writeln!(out, "differs after-reversed-call-order").unwrap();
                             }
                         }
                     }
